@@ -13,7 +13,7 @@ enum OpCode {
     O_CTX_DEREG,
     O_CTX_FINALIZE,
     O_QUIT,          // a = code
-    O_DISPATCH,      // a = number of dispatch calls (top level only)
+    O_DISPATCH,      // a = number of dispatch calls (top level only), b = polling fault injected into the first call (0 none, 1 EINTR, 2 EAGAIN, 3 EBADF, 4 ENOMEM)
     O_DRAIN,         // dispatch until a call reports no event (top level only)
     O_LOOP,          // blocking m_ctx_loop (top level only; the driver module takes over)
     O_SET_TICK,      // a = period in ms (0 = off)
